@@ -3,6 +3,8 @@
 package protocol
 
 import (
+	"crypto/x509"
+	"net"
 	"context"
 	"crypto/tls"
 	"encoding/base64"
@@ -58,6 +60,12 @@ func VerifC15WriteSet() {
 	for i := range opts {
 		opts[i] = nodeenrollment.WithNonce("app-option")
 	}
+	// one of the application's options carries a value with interior structure: a state the application wants on
+	// every node record. It is shared by all handshakes, so no handshake may write into it either.
+	appState := vfs.State("app-state")
+	if n > 0 {
+		opts[0] = nodeenrollment.WithState(appState)
+	}
 	vf.AppendSpare(1) // whatever capacity the runtime hands out if the constructor copies the options
 	l, err := NewInterceptingListener(&InterceptingListenerConfiguration{Context: ctx, Storage: st, BaseListener: &vfs.Script{},
 		BaseTlsConfiguration: &tls.Config{}, Options: opts})
@@ -92,6 +100,7 @@ func VerifC15WriteSet() {
 	var ci ClientInfo
 	_, _ = l.getTlsConfigForClient(&ci)(&tls.ClientHelloInfo{SupportedProtos: protos})
 	vf.Assert("no-shared-write", vf.And(vfSpareUntouched(opts), vfSpareUntouched(l.options)))
+	vf.Assert("application-option-values-untouched", len(appState.Fields) == 1 && vfs.StateValue(appState) == "app-state")
 	vf.Reach("end")
 }
 
@@ -125,5 +134,60 @@ func VerifC15WriteSetStubbed() {
 	hello := &tls.ClientHelloInfo{SupportedProtos: []string{nodeenrollment.FetchNodeCredsNextProtoV1Prefix + "00-" + vf.String("payload", 16)}}
 	_, _ = l.getTlsConfigForClient(&ci)(hello)
 	vf.Assert("no-shared-write", vf.And(vfSpareUntouched(opts), vfSpareUntouched(l.options)))
+	vf.Reach("end")
+}
+
+func init() { VfHarnesses["VerifC15AfterRejected"] = VerifC15AfterRejected }
+
+// C15 (what is reported for a connection is its own): a registered node's authentication hello carrying client
+// state and an extra protocol is processed by the TLS callback and then rejected (the peer does not hold the key of
+// the certificate it presents, or aborts); the next connection on the same listener is a plain TLS client of the
+// application, with no ALPN at all or with the application protocol only. What Accept reports for it - protocol
+// list and client state - is what it would report had it been the only connection.
+func VerifC15AfterRejected() {
+	ctx := context.Background()
+	t0 := vf.Now()
+	vf.ShortScenario(t0, time.Second)
+	st, creds := vfC16Server(ctx, t0)
+	nonce := []byte("a-fresh-connection-nonce-32-byte")
+	state, err := proto.Marshal(vfs.State("rejected-peers-state"))
+	if err != nil {
+		panic(err)
+	}
+	reqBytes, _ := proto.Marshal(&types.GenerateServerCertificatesRequest{CertificatePublicKeyPkix: vf.Pkix(2), Nonce: nonce, NonceSignature: vf.SigBy(2, nonce),
+		ClientState: state, ClientStateSignature: vf.SigBy(2, state)})
+	protos, _ := nodetls.BreakIntoNextProtos(nodeenrollment.AuthenticateNodeNextProtoV1Prefix, base64.RawStdEncoding.EncodeToString(reqBytes))
+	protos = append(protos, "rejected-proto")
+	first := &vfs.Peer{Protos: protos, Chain: [][]byte{creds.CertificateBundles[0].CertificateDer}, AbortErr: vfs.RemoteAbort{}}
+	if vf.Bool("first-peer-aborts") {
+		first.Abort = true
+		first.Conn = vf.AdversaryConnMode(first.Protos, nil, 0, false, false, true)
+	} else { // presents the node's certificate without holding its key
+		first.Conn = vf.AdversaryConn(first.Protos, first.Chain, 2, false)
+	}
+	second := &vfs.Peer{}
+	if vf.Bool("second-peer-offers-the-application-protocol") {
+		second.Protos = []string{"app"}
+	}
+	second.Conn = vf.AdversaryConn(second.Protos, nil, 0, false)
+	appTmpl := vfs.RootTemplate(6, t0.Add(-time.Hour), t0.Add(time.Hour))
+	appKey, kerr := x509.ParsePKCS8PrivateKey(vf.Pkcs8(6))
+	if kerr != nil {
+		panic(kerr)
+	}
+	baseCfg := &tls.Config{NextProtos: []string{"app"}, Certificates: []tls.Certificate{{Certificate: [][]byte{vfs.MkCert(appTmpl, appTmpl, 6, 6)}, PrivateKey: appKey}}}
+	l, err := NewInterceptingListener(&InterceptingListenerConfiguration{Context: ctx, Storage: st,
+		BaseListener: &vfs.Script{Conns: []net.Conn{first, second}, Errs: []error{nil, nil}}, BaseTlsConfiguration: baseCfg})
+	vf.Assert("listener-built", err == nil)
+	c1, e1 := l.Accept()
+	vf.Assert("first-peer-rejected", e1 != nil && c1 == nil)
+	c2, e2 := l.Accept()
+	vf.Assume(vf.TimeLE(vf.Now(), t0.Add(time.Second)))
+	vf.Assert("plain-client-accepted", e2 == nil && c2 != nil)
+	if e2 == nil && c2 != nil {
+		pc := c2.(*Conn)
+		vf.Assert("protocol-list-is-this-connections-own", vfSameList(pc.ClientNextProtos(), second.Protos))
+		vf.Assert("no-client-state-from-another-connection", pc.ClientState() == nil)
+	}
 	vf.Reach("end")
 }
